@@ -276,10 +276,17 @@ void World::checkPlansStorage(int i, const Op& op, const Obs& before) {
 		if (!simple || (!anySucc && !anyFail)) continue;
 		// no transition requested by anybody in the passes (outer-transition suppression is not modelled), no edits in the passes
 		bool quiet = true;
-		for (auto& e : h.trace) if (e.k == EV_ISSUE || e.k == EV_PLAN_EDIT) quiet = false;
+		for (auto& e : h.trace) {
+			if (e.k == EV_PLAN_EDIT) quiet = false;
+			// "no transition out of the region is requested": by the region's own states; what other regions ask for is their business
+			if (e.k == EV_ISSUE && (e.state < 0 || sh.inSubtree(e.state, head) || sh.inSubtree(head, e.state))) quiet = false;
+		}
 		// a callback reporting on behalf of another state credits the caller's position: only self-reports and client calls are the statement's "a sub-state succeeds"
 		for (auto& e : h.trace) if ((e.k == EV_SUCCEED || e.k == EV_FAIL) && e.state >= 0 && e.state != e.a) quiet = false;
 		if (!quiet || !before.queued.empty() || !issuedKnown) continue;
+		// documented: a plain state directly below an orthogonal region has no scope of its own, the "transition out of here" flag it raises is still set when the next sibling region is visited
+		bool leafSiblingIssued = false;
+		{ int others = 0; for (auto& e : h.trace) if (e.k == EV_ISSUE) { ++others; const int par = e.state >= 0 ? sh.st[size_t(e.state)].parent : -1; if (par >= 0 && sh.isOrtho(par) && !sh.isRegion(e.state)) leafSiblingIssued = true; } if (others) probe("plan_complete_with_foreign_requests"); }
 		// nested plan-owning regions between are excluded by "direct leaf"; ancestors may also react, that is their business
 		const auto& pl = before.plans[size_t(g)];
 		int planCb = 0, planCbKind = 0;
@@ -292,7 +299,7 @@ void World::checkPlansStorage(int i, const Op& op, const Obs& before) {
 		if (anyFail) {
 			if (!sh.st[size_t(head)].headless && !(planCb == 1 && planCbKind == M_PLAN_FAILED)) {
 				std::snprintf(b, sizeof b, "%s: a sub-state of plan-owning region %d failed, but its head received %d plan callback(s)", h.role.c_str(), head, planCb);
-				violate("C06.complete", b, i, childrenFirst ? "substate_status_taken_for_head_status" : ""); return; }
+				violate("C06.complete", b, i, childrenFirst ? "substate_status_taken_for_head_status" : (leafSiblingIssued ? "outer_transition_flag_leaks_from_leaf_sibling" : "")); return; }
 			continue;
 		}
 		// success only: every task (in order, while origins are active) whose origin succeeded must have been issued
@@ -307,14 +314,14 @@ void World::checkPlansStorage(int i, const Op& op, const Obs& before) {
 		std::vector<Tr> got; for (auto& q : planIssued) if (q.origin == head) got.push_back(q);
 		if (pl.empty()) {
 			if (!sh.st[size_t(head)].headless && !(planCb == 1 && planCbKind == M_PLAN_SUCCEEDED)) {
-				std::snprintf(b, sizeof b, "%s: a sub-state of region %d succeeded and its attached plan is empty, but the head received %d plan callback(s)", h.role.c_str(), head, planCb); violate("C06.complete", b, i, childrenFirst ? "substate_status_taken_for_head_status" : ""); return; }
+				std::snprintf(b, sizeof b, "%s: a sub-state of region %d succeeded and its attached plan is empty, but the head received %d plan callback(s)", h.role.c_str(), head, planCb); violate("C06.complete", b, i, childrenFirst ? "substate_status_taken_for_head_status" : (leafSiblingIssued ? "outer_transition_flag_leaks_from_leaf_sibling" : "")); return; }
 			probe("plan_succeeded_delivered");
 		} else {
 			bool same = got.size() == expect.size();
 			for (size_t k = 0; same && k < got.size(); ++k) same = got[k].dest == expect[k].dest && (got[k].method == 99 || (got[k].hasPayload == expect[k].hasPayload && (!got[k].hasPayload || got[k].payload == expect[k].payload)));
 			if (!same && int(firstRound.size()) < sh.compoCount) {
 				std::snprintf(b, sizeof b, "%s: region %d: %zu task(s) were due (origin active and succeeded), %zu were executed", h.role.c_str(), head, expect.size(), got.size());
-				violate("C06.complete", b, i, childrenFirst ? "substate_status_taken_for_head_status" : ""); return; }
+				violate("C06.complete", b, i, childrenFirst ? "substate_status_taken_for_head_status" : (leafSiblingIssued ? "outer_transition_flag_leaks_from_leaf_sibling" : "")); return; }
 		}
 	}
 }
@@ -410,6 +417,13 @@ void World::checkPayloads(int i, const Op& op, const Obs& before) {
 		checked("C14.last_to_payload");
 		for (int k = 0; k < h.shape->n; ++k) {
 			const int idx = s.obs.lastTo[size_t(k)];
+			bool guardIssued = false; for (auto& e : h.trace) if (e.k == EV_ISSUE && (e.method == M_ENTRY_GUARD || e.method == M_EXIT_GUARD)) guardIssued = true;
+			if (idx < 0 && !before.active[size_t(k)] && s.obs.active[size_t(k)] && !h.guards.empty() && h.round == 0 && !guardIssued) {
+				bool util = s.obs.prev[0].kind == K_UTILIZE || s.obs.prev[0].kind == K_RANDOMIZE;
+				for (int x = h.shape->st[size_t(k)].parent; x >= 0; x = h.shape->st[size_t(x)].parent) if (h.shape->st[size_t(x)].strategy == 3 || h.shape->st[size_t(x)].strategy == 4) util = true;
+				std::snprintf(b, sizeof b, "%s: the only approved request carried payload %lld and activated state %d, but lastTransitionTo(%d) is null", h.role.c_str(), (long long) s.obs.prev[0].payload, k, k);
+				violate("C14.last_to_payload", b, i, util ? "last_to_unpinned_by_utility_resolution" : ""); return;
+			}
 			if (idx < 0) continue;
 			Tr t; s.node->lastTransitionTo(k, t);
 			if (!(t == s.obs.prev[0])) { std::snprintf(b, sizeof b, "%s: lastTransitionTo(%d) does not carry the payload of the only approved request", h.role.c_str(), k); violate("C14.last_to_payload", b, i); return; }
